@@ -80,3 +80,19 @@ Proof.
   split; vm_compute; reflexivity.
 Qed.
 Print Assumptions C01_nonvacuous.
+
+(* array components with inline items, nested twice, are inside spec_ok: extraction invents `Row`/`Matrix`-style names
+   for the item schemas and succeeds *)
+Theorem C01_nonvacuous_inline_arrays :
+  let str_s := Sch false None false false (KStr [] []) in
+  let obj := Sch false None false false (KObject [(lit "name", Inl str_s)] [lit "name"] None) in
+  let sp := {| components := [(lit "Matrices", Sch false None false false (KArray (Some (Inl (Sch false None false false (KArray (Some (Inl str_s))))))));
+                              (lit "Pets", Sch false None false false (KArray (Some (Inl obj))))];
+               paths := [ {| pi_path := lit "/pets"; pi_params := [];
+                            pi_ops := [ {| op_method := lit "get"; op_id := Some (lit "listPets"); op_summary := None;
+                                           op_description := None; op_ext_docs := None; op_params := []; op_body := None;
+                                           op_responses := [(200%N, Some (Ref (lit "Pets")))] |} ] |} ];
+               servers := []; security := []; schemes := []; ext_docs := None |} in
+  exists h, spec_ok 10 sp = true /\ extract_without_treeshake 50 sp = Ok h /\ map fst (h_schemas h) = [lit "MatricItem"; lit "Pet"].
+Proof. cbv zeta. eexists. split; [vm_compute; reflexivity|]. split; vm_compute; reflexivity. Qed.
+Print Assumptions C01_nonvacuous_inline_arrays.
